@@ -6,7 +6,7 @@ import ast
 from sa.cfg import CFG, ReachingDefs, edges_establishing
 from sa.model import AnalysisError, Program, norm, walk_no_nested
 from sa.report import Results
-from sa.util import assignments_to, callee, dotted, exc_name, is_const
+from sa.util import parent_map, assignments_to, callee, dotted, exc_name, is_const
 
 STRUCTURED_CALLS = {"tree_sitter_node_to_expression", "parse_delimited_sequence", "source_bytes_context", "from_cst",
                     "parse_binding_sequence", "parse_let_expression"}
@@ -384,5 +384,60 @@ def run(prog: Program) -> Results:
         if f.rule == "R-C16-1":
             res.add("R-C07-4", f.key, f.where, f.message)
     res.analysed_functions.add("main")
+    # ---------------------------------------------------------------- R-C07-5 the shape gate cannot be bypassed
+    r5 = res.rule("R-C07-5", "the document's top-level expression becomes an edit target only through the shape gate "
+                  "(_resolve_target_set_from_expr, whose default arm refuses the raw node of an erroneous document): elsewhere in the "
+                  "CLI edit code `source.expressions[i]` is only inspected (type tests, attribute reads), never returned, stored or "
+                  "passed on", floor=2)
+    GATE = {"_resolve_target_set_from_expr"}
+    INSPECT = {"isinstance", "getattr", "hasattr", "len", "type", "id", "bool"}
+    for f in prog.all_functions():
+        if f.module != "nix_manipulator/cli/manipulations.py":
+            continue
+        docs = {a.arg for a in f.node.args.posonlyargs + f.node.args.args + f.node.args.kwonlyargs
+                if a.annotation is not None and "NixSourceCode" in ast.unparse(a.annotation)}
+        if not docs:
+            continue
+        pm = parent_map(f.node)
+        tops = set()  # locals holding the top-level expression
+        reads = []
+        for n in ast.walk(f.node):
+            if isinstance(n, ast.Subscript) and isinstance(n.value, ast.Attribute) and n.value.attr == "expressions" \
+                    and isinstance(n.value.value, ast.Name) and n.value.value.id in docs and isinstance(n.ctx, ast.Load):
+                reads.append(n)
+                par = pm.get(n)
+                if isinstance(par, ast.Assign) and par.value is n:
+                    for t in par.targets:
+                        if isinstance(t, ast.Name):
+                            tops.add(t.id)
+        if not reads:
+            continue
+        res.analysed_functions.add(f.key)
+        uses = list(reads) + [n for n in ast.walk(f.node) if isinstance(n, ast.Name) and n.id in tops and isinstance(n.ctx, ast.Load)]
+        for u in uses:
+            par = pm.get(u)
+            r5.instances += 1
+            verdict = "inspect"
+            if isinstance(par, ast.Assign) and par.value is u:
+                verdict = "inspect" if all(isinstance(t, ast.Name) for t in par.targets) else "stored"
+            elif isinstance(par, ast.Call) and u in par.args or (isinstance(par, ast.keyword)):
+                call = par if isinstance(par, ast.Call) else pm.get(par)
+                cn = callee(call) if isinstance(call, ast.Call) else None
+                verdict = "gate" if cn in GATE else ("inspect" if cn in INSPECT else f"passed to {cn}")
+            elif isinstance(par, ast.Return):
+                verdict = "returned"
+            elif isinstance(par, (ast.Attribute,)) and isinstance(par.ctx, ast.Load):
+                verdict = "inspect"
+            elif isinstance(par, (ast.Attribute, ast.Subscript)) and isinstance(par.ctx, (ast.Store, ast.Del)):
+                verdict = "written"
+            elif isinstance(par, (ast.Tuple, ast.List, ast.Dict, ast.Starred)):
+                verdict = "stored"
+            ok = verdict in ("inspect", "gate")
+            r5.ob(ok, {"site": f.key, "use": norm(par)[:60] if par is not None else norm(u), "verdict": verdict})
+            if not ok:
+                res.add("R-C07-5", (f.key, "top-level expression bypasses the shape gate", verdict), f.loc(u),
+                        f"{f.key}: the document's top-level expression `{norm(u)}` is {verdict} without passing "
+                        f"_resolve_target_set_from_expr: for a file with a syntax error that expression is the raw pass-through node, "
+                        f"so `set`/`rm` would edit and emit a broken file instead of refusing")
     res.assumptions = ["tree-sitter's has_error flags every damaged text (external parser contract)"]
     return res
